@@ -265,3 +265,85 @@ fn c08_rpc_error_reader_layouts() {
     }
     kani::cover!(accepted && rejected, "elements are accepted and rejected");
 }
+
+// -------------------------------------------------------------------------------------------------
+// C13: namespace prefix vs default namespace, on the real `rpc::Error::read_xml`.
+
+/// `REPLY_NAMES` with the base namespace bound to the prefix `nc:` (same ids).
+pub static PREFIXED_REPLY_NAMES: [&[u8]; 12] = [
+    b"",
+    b"nc:ok",
+    b"nc:rpc-error",
+    b"nc:error-type",
+    b"nc:error-tag",
+    b"nc:error-severity",
+    b"nc:rpc-reply",
+    b"nc:data",
+    b"nc:other",
+    b"nc:load-configuration-results",
+    b"nc:load-error-count",
+    b"nc:error-message",
+];
+/// offset of the local part in each entry above
+pub static PREFIXED_LOCAL_OFFS: [u8; 12] = [0, 3, 3, 3, 3, 3, 3, 3, 3, 3, 3, 3];
+static NO_LOCAL_OFFS: [u8; 1] = [0];
+
+fn rpc_error_with_message_tape(with_message: bool) -> Tape {
+    let mut tp = Tape::EMPTY;
+    tp.push(TYPE_START);
+    tp.push(Cell::text(t::PROTOCOL));
+    tp.push(TYPE_END);
+    tp.push(TAG_START);
+    tp.push(Cell::text(t::OPERATION_FAILED));
+    tp.push(TAG_END);
+    tp.push(SEV_START);
+    tp.push(Cell::text(t::ERROR));
+    tp.push(SEV_END);
+    if with_message {
+        tp.push(Cell::start(BASE, n::ERROR_MESSAGE));
+        tp.push(Cell::text(t::X));
+        tp.push(Cell::end(BASE, n::ERROR_MESSAGE));
+    }
+    tp.push(ERR_END);
+    tp.push(cells::OK);
+    tp
+}
+
+fn read_error_on(tp: Tape) -> Result<Error, ReadError> {
+    tape::register(0, tp);
+    let mut reader = NsReader::from_str(tape::input_for(0));
+    let _ = reader.trim_text(true);
+    let start = quick_xml::events::BytesStart::from_id(n::RPC_ERROR);
+    Error::read_xml(&mut reader, &start)
+}
+
+/// C13 (prefix choice): an `<rpc-error>` (mandatory children, optionally an `<error-message>`)
+/// is read by the real `rpc::Error::read_xml` once with the base namespace as default namespace
+/// and once bound to the prefix `nc:` (every element name spelled `nc:…`, namespace resolution
+/// unchanged): both readings must agree on acceptance, severity and the presence of the message.
+/// Element structure concrete (2 layouts by a concrete loop); what the solver decides are the
+/// name comparisons and end-tag searches of the real reader on both spellings.
+#[kani::proof]
+#[kani::unwind(16)]
+fn c13_rpc_error_prefix_choice() {
+    let mut k = 0;
+    while k < 2 {
+        let with_message = k == 1;
+        tape::set_tables(&REPLY_NAMES, &REPLY_TEXTS, &REPLY_ATTRS);
+        tape::set_local_offsets(&NO_LOCAL_OFFS);
+        let r1 = read_error_on(rpc_error_with_message_tape(with_message));
+        tape::set_tables(&PREFIXED_REPLY_NAMES, &REPLY_TEXTS, &REPLY_ATTRS);
+        tape::set_local_offsets(&PREFIXED_LOCAL_OFFS);
+        let r2 = read_error_on(rpc_error_with_message_tape(with_message));
+        assert!(r1.is_ok(), "C13 rpc-error: well-formed element rejected in the default-namespace spelling");
+        assert!(r1.is_ok() == r2.is_ok(), "C13 rpc-error: acceptance depends on the namespace prefix choice");
+        if let (Ok(e1), Ok(e2)) = (&r1, &r2) {
+            assert!(severity_code(e1) == severity_code(e2), "C13 rpc-error: severity depends on the namespace prefix choice");
+            assert!(e1.message.is_some() == with_message, "C13 rpc-error: <error-message> lost / invented");
+            assert!(e1.message.is_some() == e2.message.is_some(), "C13 rpc-error: <error-message> depends on the namespace prefix choice");
+        }
+        kani::cover!(r2.is_ok() && with_message, "prefixed spelling with message accepted");
+        std::mem::forget((r1, r2));
+        k += 1;
+    }
+}
